@@ -31,7 +31,7 @@ CHECKS = {
         technique=TR,
         text="Invariants AcceptOnlyValid, BcastKeepsWaiting, FailOnlyOnBad, SetAddrNeverReads hold on the complete state space of three bounded configurations (2-3 calls, all datagram classes, strays, peer faults). "
              "Behaviours of the same specification (controller answers of 1-2 datagrams from 8 classes, strays injected into the call's source port, all three paths) are replayed against the unmodified driver on loopback and every recorded scenario must be a behaviour of the specification: accepted / skipped / refused exactly as the model's Recv says; one hand-made behaviour per datagram class x {ordinary, status} call x path and per wrong length (19 lengths, 0..4096, and the genuine TCP reply split in two segments) and path; floods of up to 140 ignored datagrams ahead of the genuine reply; peer faults incl. a TCP peer that ends the stream without a byte (closed); on the real driver every reply-bearing operation over each path with the result kept across 1-4 further exchanges, and a reply with one out-of-domain field right after a well-formed one, judged against its own datagram (OnlyOwnDatagram).",
-        note="Trusted: TLC; the farm's concretisation of datagram classes; timing on a 50 ms tick with a re-run rule (a rejection counts only if reproduced in isolation at 150 ms tick). Operation coverage on real sockets is representative (GetCardByIndex, GetStatus incl. 0x19, SetAddress); per-operation decoding is C02's.",
+        note="Trusted: TLC; the farm's concretisation of datagram classes; timing on a 40-50 ms tick with a re-run rule (a rejected scenario is reported only if it is rejected again in at least two isolated re-runs at 3x / 5x tick whose own clockwork was undisturbed, and in more of them than it is accepted in). Operation coverage on real sockets is representative (GetCardByIndex, GetStatus incl. 0x19, SetAddress); per-operation decoding is C02's.",
         design="4/C03",
     ),
     "C04": dict(
@@ -53,7 +53,7 @@ CHECKS = {
     "C06": dict(
         category="model_checking",
         technique="TLC trace validation (Trace_Api: route = Api!Route(op,cfg,serial), one transport call) over 32 operations x 270 client configurations on the scripted transport; TLC trace validation (Trace_Transport TAsk: arrival transport/endpoint, source = bind address, exactly once, silent decoys) of real-socket scenarios",
-        text="Api!Route is the routing rule of the property (usable address => direct, tcp only when configured tcp, otherwise broadcast to the configured or default broadcast address; discovery always broadcasts). Every recorded call under every configuration of the product must invoke the transport once with exactly that method and endpoint; "
+        text="Api!Route is the routing rule of the property (usable address => direct, tcp only when configured tcp, otherwise broadcast to the configured or default broadcast address; discovery always broadcasts). Every recorded call under every configuration of the product (half of them answered with a well-formed reply) must invoke the transport once with exactly that method and endpoint; "
              "on real sockets the farm records where each request arrived, from which source address/port, how often, and that decoy endpoints heard nothing; strangers write to the port of connected-UDP calls too (the kernel never shows them to the call: StrangersCannotTouchDirected, XF_UnconnectedUDP refuted); one client configured with all controllers in every other scenario; the source address of discovery / broadcast-to / UDP / TCP requests from bind addresses 127.0.0.2:0 and 127.0.0.3:fixed as seen by the farm (SourceIsBindAddress).",
         note="Trusted: TLC; the default broadcast address 255.255.255.255:60000 is only observable at the driver boundary (sealed network).",
         design="4/C06",
@@ -124,14 +124,14 @@ CHECKS = {
     "C15": dict(
         category="model_checking",
         technique=PURE + " (AcceptExact, Reject, FormatRoundTrip, RejectNoQuad; spec/Addr.tla) + TLC check of the grammar's consistency (MC_Addr)",
-        text="Addr!MustAccept / MustReject / don't-care partition texts per role; every string over {1,0,2,5,.,:} up to length 7/9, all ports (and decimal numbers beyond 65535: MustReject), single-character mutations of valid addresses and format/parse round trips (boundary addresses such as 0.0.0.0 and 255.255.255.255 x boundary ports first, then random) are judged by TLC for all four roles through Parse, Set and the XAddrFrom constructors; a port text with a non-digit is refused (NonDecimalPort), an accepted zero-padded port is its decimal value (AcceptedMeansDecimal), the same text parsed twice gets the same answer.",
+        text="Addr!MustAccept / MustReject / don't-care partition texts per role; every string over {1,0,2,5,.,:} up to length 7/9, all ports (and decimal numbers beyond 65535: MustReject), single-character mutations of valid addresses and format/parse round trips (boundary addresses such as 0.0.0.0 and 255.255.255.255 x boundary ports first, then random) are judged by TLC for all four roles through Parse, MustParse, Set and the XAddrFrom constructors; a port text with a non-digit is refused (NonDecimalPort), an accepted zero-padded port is its decimal value (AcceptedMeansDecimal), the same text parsed twice gets the same answer.",
         note="Trusted: TLC; texts as code points.",
         design="4/C15",
     ),
     "C16": dict(
         category="model_checking",
         technique=PURE + " (rows of Before/After/Equals verdicts recomputed from the lexicographic operators) + TLC check of trichotomy / transitivity / irreflexivity and agreement with the day number on a bounded grid (MC_Order); TLAPS proofs of the order laws and the segment rule over unbounded integers (spec/proofs/OrderProofs.tla, 8 obligations)",
-        text="All 1441^2 HH:mm pairs (thorough; every 5th row quick), every day of four years incl. leap and century years against its calendar neighbours, the year ends of a 400-year cycle (thorough: all years), month ends, boundaries incl. the first day of the range (also as the zero value), random grids, date-time vs instant around second boundaries and around the offset changes of the operands' own locations; the segment rule (Trace_Api!CheckSegmentRule) over all ordered pairs of a boundary-rich HH:mm set through SetTimeProfile.",
+        text="All 1441^2 HH:mm pairs (thorough; every 5th row quick), every day of four years incl. leap and century years against its calendar neighbours, the year ends of a 400-year cycle (thorough: all years), month ends, boundaries incl. the first day of the range (also as the zero value), values built with ToDate / time.Date / HHmmFromTime, random grids, date-time vs instant around second boundaries and around the offset changes of the operands' own locations; the segment rule (Trace_Api!CheckSegmentRule) over all ordered pairs of a boundary-rich HH:mm set through SetTimeProfile.",
         note="Trusted: TLC; whole-second timestamps logged as two 20-bit halves.",
         design="4/C16",
     ),
@@ -145,7 +145,7 @@ CHECKS = {
     "C18": dict(
         category="model_checking",
         technique="TLC trace validation (Trace_Layout: Wire!EncodedOK / round trip / NoAlias / TagsEnforced applied to the layout carried by each event) of struct types generated from the tag grammar with reflect.StructOf",
-        text="The same executable field codec that judges the shipped messages judges generated layouts: every single-field layout (19 Go field types x every fitting offset x top-level/embedded), fixed-value byte tags in four notations at every offset, and 1000/20000 random multi-field layouts packed to the last byte, the embedded struct first / in the middle / last among the top-level fields; inner fields that share a Go name with an outer field or with a field of a second embedded struct; plus aliasing (input buffer overwritten after decode), the zero value of every layout, Marshal by pointer, decoding into a struct that already holds other values, and enforcement of function-code / fixed-value tags.",
+        text="The same executable field codec that judges the shipped messages judges generated layouts: every single-field layout (19 Go field types x every fitting offset x top-level/embedded), fixed-value byte tags in four notations at every offset, and 1000/20000 random multi-field layouts packed to the last byte, the embedded struct first / in the middle / last among the top-level fields; inner fields that share a Go name with an outer field or with a field of a second embedded struct; two named Go types of the same name with different layouts; plus aliasing (input buffer overwritten after decode), the zero value of every layout, Marshal by pointer, decoding into a struct that already holds other values, and enforcement of function-code / fixed-value tags.",
         note="Trusted: TLC; layouts are harness-generated (seeded), not exported from TLC.",
         design="4/C18",
     ),
